@@ -20,16 +20,20 @@ package system
 // panic on purpose ("rtnetlink package invariant checks") and are outside the model.
 
 import (
+	"encoding/binary"
 	"errors"
 	"fmt"
 	"math"
 	"net"
 	"net/netip"
 	"os/exec"
+	"reflect"
 	"runtime"
 	"strings"
+	"sync"
 	"syscall"
 	"testing"
+	"time"
 
 	"github.com/jsimonetti/rtnetlink"
 	"github.com/mdlayher/corerad/internal/verifh"
@@ -408,6 +412,99 @@ func TestVerifC13Addresser(t *testing.T) {
 			c.Observed = r
 		} else {
 			c.ImplViolation = r
+		}
+		out.Emit(c)
+	}
+
+	// ---- (7) dumps for several interfaces at once (one Addresser, as when one were shared): every caller gets the
+	// addresses of ITS interface, whatever the index -- long-running hosts with container churn reach indices far
+	// above 65535 -- and a slow dump of one interface never answers another
+	if out.Wants("c13sys-concurrent-indices") {
+		var mu sync.Mutex
+		var viol []string
+		a := &addresser{execute: func(m rtnetlink.Message, family uint16, flags netlink.HeaderFlags) ([]rtnetlink.Message, error) {
+			am, ok := m.(*rtnetlink.AddressMessage)
+			if !ok {
+				return nil, errors.New("not an address request")
+			}
+			time.Sleep(300 * time.Microsecond) // the dump takes a while
+			var b [16]byte
+			b[0], b[1] = 0x20, 0x01
+			binary.BigEndian.PutUint32(b[12:], am.Index)
+			return []rtnetlink.Message{&rtnetlink.AddressMessage{Family: unix.AF_INET6, PrefixLength: 64, Index: am.Index,
+				Attributes: &rtnetlink.AddressAttributes{Address: net.IP(b[:]), CacheInfo: rtnetlink.CacheInfo{Valid: math.MaxUint32, Prefered: math.MaxUint32}}}}, nil
+		}}
+		indices := []int{1, 2, 7, 255, 256, 0xd7ff, 0xd800, 0xd801, 0xdfff, 0xe000, 0xffff, 0x10000, 0x10001, 0x10ffff, 0x110000, 0x110001, 0x7ffffff0, 0x7fffffff}
+		var wg sync.WaitGroup
+		for _, idx := range indices {
+			wg.Add(1)
+			go func(idx int) {
+				defer wg.Done()
+				for r := 0; r < 40; r++ {
+					ips, err := a.AddressesByIndex(idx)
+					var b [16]byte
+					b[0], b[1] = 0x20, 0x01
+					binary.BigEndian.PutUint32(b[12:], uint32(idx))
+					if want := netip.PrefixFrom(netip.AddrFrom16(b), 64); err != nil || len(ips) != 1 || ips[0].Address != want {
+						mu.Lock()
+						if len(viol) < 3 {
+							viol = append(viol, fmt.Sprintf("AddressesByIndex(%d), called while dumps for other interfaces run, returned %v (error %v), want [%s]", idx, ips, err, want))
+						}
+						mu.Unlock()
+						return
+					}
+				}
+			}(idx)
+		}
+		wg.Wait()
+		out.Emit(verifh.Case{ID: "c13sys-concurrent-indices", Tags: []string{"stream:concurrent-indices"}, Input: map[string]any{"kind": "concurrent-indices", "indices": indices},
+			ImplViolation: strings.Join(viol, "; ")})
+	}
+
+	// ---- (8) what NewAddresser hands out does not depend on the moment it is called: constructed while the
+	// process has no file descriptor left (Prepare runs at every re-dial, also under pressure) and used after
+	// the pressure is gone, it answers as an Addresser constructed at leisure does -- the same addresses with
+	// the same flags -- or fails; it never degrades silently to answers without address flags
+	if out.Wants("c13sys-fd-pressure") {
+		c := verifh.Case{ID: "c13sys-fd-pressure", Tags: []string{"stream:fd-pressure"}, Input: map[string]any{"kind": "fd-pressure"}}
+		lo, lerr := net.InterfaceByName("lo")
+		var ref []IP
+		var rerr error
+		if lerr == nil {
+			ref, rerr = NewAddresser().AddressesByIndex(lo.Index)
+		}
+		var lim syscall.Rlimit
+		if lerr != nil || rerr != nil || len(ref) == 0 || syscall.Getrlimit(syscall.RLIMIT_NOFILE, &lim) != nil {
+			c.Tags = append(c.Tags, "real-netlink:unavailable")
+		} else {
+			low := lim
+			low.Cur = 256
+			if low.Cur > lim.Cur {
+				low.Cur = lim.Cur
+			}
+			var held []int
+			if err := syscall.Setrlimit(syscall.RLIMIT_NOFILE, &low); err == nil {
+				for {
+					fd, err := syscall.Open("/dev/null", syscall.O_RDONLY|syscall.O_CLOEXEC, 0)
+					if err != nil {
+						break
+					}
+					held = append(held, fd)
+				}
+			}
+			a := NewAddresser() // no descriptor is available right now
+			for _, fd := range held {
+				syscall.Close(fd)
+			}
+			_ = syscall.Setrlimit(syscall.RLIMIT_NOFILE, &lim)
+			got, err := a.AddressesByIndex(lo.Index)
+			again, err2 := NewAddresser().AddressesByIndex(lo.Index)
+			c.Observed = map[string]any{"held": len(held), "reference": fmt.Sprint(ref), "got": fmt.Sprint(got), "error": fmt.Sprint(err)}
+			if len(held) == 0 || err2 != nil || !reflect.DeepEqual(again, ref) {
+				c.Tags = append(c.Tags, "real-netlink:unavailable") // the loopback addresses moved meanwhile, or no pressure could be built
+			} else if err == nil && !reflect.DeepEqual(got, ref) {
+				c.ImplViolation = fmt.Sprintf("an Addresser constructed while no file descriptor was available answers %v for lo; one constructed at leisure answers %v", got, ref)
+			}
 		}
 		out.Emit(c)
 	}
